@@ -42,6 +42,18 @@ def word_signal(word, scale=1.0, offset=0.0, negate=False):
     return x
 
 
+SENSITIVE = [('aabeaadaab', 5), ('aaaaaaaaaa', 4), ('bbnbbdabbb', 1), ('aadaaazzaa', 4), ('anananadad', 2), ('anananadad', 3)]
+
+
+def sensitive_signal(i):
+    """Integer-valued noisy signals (80 samples) whose cycle table changes with the narrow-band filter length
+    (n_cycles 2 / 3 / 4 give three different tables at fs=64, band 6-14 Hz) - found by search, fixed here."""
+    w, k = SENSITIVE[i % len(SENSITIVE)]
+    x = word_signal(w)
+    n = np.arange(len(x))
+    return x + 2.0 * (((n * n * (3 + k) + n * (7 + 2 * k) + k) % 7) - 3.0)
+
+
 def word_dims(letters, length):
     return [list(letters)] * length
 
@@ -75,6 +87,8 @@ DEVIATIONS = {
     'x.125': {'scale': .125},
     'dc5': {'offset': 5.0},
     'neg': {'negate': True},
+    'strided': {'layout': 'strided'},      # the signal is a non-contiguous view into a larger array
+    'int': {'layout': 'int'},              # integer dtype (ADC counts)
 }
 # deviations that exclude each other (same option)
 GROUPS = [('nc2', 'nc4', 'ns.5', 'ns.375'), ('b1', 'b5', 'b12'), ('band5_12', 'band7_16', 'fs128'),
@@ -103,7 +117,7 @@ def resolve(devs):
     """Turn a tuple of deviation names into concrete call parameters."""
     o = {'fs': 64, 'f_range': (6, 14), 'center_extrema': 'peak', 'burst_method': 'cycles',
          'filter_kwargs': None, 'boundary': None, 'return_samples': True, 'thr': 0,
-         'scale': 1.0, 'offset': 0.0, 'negate': False}
+         'scale': 1.0, 'offset': 0.0, 'negate': False, 'layout': 'plain'}
     for d in devs:
         o.update(copy.deepcopy(DEVIATIONS[d]))
     return o
@@ -129,7 +143,15 @@ def call_kwargs(o):
 
 
 def make_signal(word, o):
-    return word_signal(word, scale=o['scale'], offset=o['offset'], negate=o['negate'])
+    x = word_signal(word, scale=o['scale'], offset=o['offset'], negate=o['negate'])
+    if o.get('layout') == 'strided':
+        big = np.empty((len(x), 3))
+        big[:] = 99.
+        big[:, 1] = x
+        return big[:, 1]
+    if o.get('layout') == 'int' and np.all(x == np.round(x)):
+        return x.astype(np.int64)
+    return x
 
 
 def filt_len(fs, f_range, filter_kwargs):
